@@ -60,6 +60,23 @@ CLAIMS = {
              "price machine; cash() of every criterion (closed forms and the default search, incl. user subclasses, constants, multi-column, target) is compared with the exact "
              "certainty equivalent and with the property's own relations; Hedger.price/compute_loss are compared with the machine's exact price on scripted draws.",
         note="Trusted: TLC, torch, ScriptedPrimary double. Default-search amounts within the documented precision 1e-6."),
+    "C10": dict(
+        engine="Sim.tla / TLC -> path-wise replay with supplied normals",
+        technique="TLA+ scheme machines (one Step(z) per time step, exact coefficient/rational domains) checked by TLC against closed forms for every sequence of supplied normals; real generators replayed on exactly those normals",
+        category=MC, design_ref="DESIGN.md 3 C10, 4",
+        text="PARTIAL: decides the path-wise half of the property. Sim.tla models Brownian, geometric Brownian, Merton (with supplied jump counts), Vasicek (exact OU transition) and local-volatility Euler "
+             "schemes; TLC checks BrownianClosedForm, OUClosedForm, EulerMartingale, JumpFreeReduction for all normal sequences of the bounded model; the real generators are run on those normals "
+             "(engine argument, or randn_like / Poisson.sample replaced for one call) and whole paths compared; Merton and Kou at zero intensity must equal the diffusion on the same normals. "
+             "Distributional statements (moments, correlations, rough Bergomi, CIR/Heston quadratic-exponential scheme) are NOT decided.",
+        note="Trusted: TLC, torch; public torch functions replaced for one call. Everything in C10 that needs a sample estimate is outside this check and listed in DESIGN.md 4."),
+    "C11": dict(
+        engine="Market.tla / TLC -> replay on real primaries and generators",
+        technique="TLA+ buffer-replacement machine and contract table of the eight primary kinds explored by TLC; histories replayed on real instruments with projection after every simulate(); generator contract sweep",
+        category=MC, design_ref="DESIGN.md 3 C11",
+        text="TLC checks UniformShape, NothingSurvives and SimulateReplacesAll on every history of repeated simulate(n_paths, steps, default/custom initial state) per primary kind; each history is executed on the "
+             "real primary in several parameter regimes (incl. high vol-of-vol / low variance) and dtypes, projecting shape, dtype, first column, finiteness, sign class, volatility^2=variance and replacement after "
+             "every call; the nine generators are checked against the same contract. Finiteness/sign are judged on seeded random draws (exploration level for that part).",
+        note="Trusted: TLC, torch. Known findings: generate_rough_bergomi / RoughBergomiStock with a single time point raise."),
     "C12": dict(
         engine="Payoff.tla + Grid.tla / TLC -> replay",
         technique="TLA+ contractual payoffs and clause-pipeline machine checked by TLC (orderings, registration-order fold); every terminal state replayed into payoff functions and derivative classes",
